@@ -232,22 +232,48 @@ Definition starts_cap (s : bytes) : bool := match s with c :: _ => is_cap c | []
 Definition name_ok (s : bytes) : bool := ident s && starts_letter s.
 Definition type_name_ok (s : bytes) : bool := forallb alnum s && starts_cap s.
 
-(* inline anonymous schemas (field x object { ... }) are modelled and compared with the real compiler,
-   but the acceptance theorem does not cover them: they are outside [in_quantifier] *)
-Definition is_inline_kind (u : ufield) : bool :=
-  match uf_kind u with KInlineObject _ | KInlineOneof _ | KInlineEnum _ => true | _ => false end.
+(* inline anonymous schemas (field x object { ... } / oneof { ... } / enum { ... }): the type is nested in
+   the message under the name ToCamel(field); its own fields / options form a scope of their own; the
+   values of an inline enum live in the MESSAGE scope (enum values are siblings of their enum) *)
+Definition sfield_wf (s : sfield) : bool :=
+  name_ok (sf_name s) && negb (sf_optional s && sf_required s).
+Definition sp_inline_scope (is_oneof : bool) (fs : list sfield) : list bytes :=
+  map (fun s => to_snake (sf_name s)) fs
+  ++ (if is_oneof then [] else map (fun s => 95 :: to_snake (sf_name s)) (filter sf_optional fs)).
+Definition inline_wf (u : ufield) : bool :=
+  match uf_kind u with
+  | KInlineObject fs => forallb sfield_wf fs && nodup_bytes (sp_inline_scope false fs)
+  | KInlineOneof fs => forallb sfield_wf fs && nodup_bytes (sp_inline_scope true fs)
+  | KInlineEnum os => forallb name_ok os
+  | _ => true
+  end.
 Definition ufield_wf (u : ufield) : bool :=
-  name_ok (uf_name u) && negb (is_inline_kind u)
+  name_ok (uf_name u) && inline_wf u
   && negb (uf_optional u && (uf_required u || match uf_kind u with KKey p _ _ => p | _ => false end)).
 (* the proto symbols the user's fields of ONE message stand for: the field ToSnake(name), the
-   presence oneof "_<field>" of an optional field, the entry message <Camel>Entry of a map field *)
+   presence oneof "_<field>" of an optional field, the entry message <Camel>Entry of a map field,
+   the inline type <Camel> of an inline field and the values of an inline enum *)
 Definition is_map_kind (u : ufield) : bool := match uf_kind u with KMap _ => true | _ => false end.
+Definition sp_enum_value_name (prefix s : bytes) : bytes := if has_prefix prefix s then s else prefix ++ s.
+Definition sp_inline_enum_values (name : bytes) (opts : list bytes) : list bytes :=
+  let prefix := to_screaming_snake name ++ [95] in
+  match opts with
+  | s :: _ => if has_suffix (bs "UNSPECIFIED") s then map (sp_enum_value_name prefix) opts
+              else (prefix ++ bs "UNSPECIFIED") :: map (sp_enum_value_name prefix) opts
+  | [] => [prefix ++ bs "UNSPECIFIED"]
+  end.
+Definition sp_inline_names (fs : list ufield) : list bytes :=
+  flat_map (fun u => match uf_kind u with
+    | KInlineObject _ => [to_camel (uf_name u)]
+    | KInlineOneof _ => [to_camel (uf_name u)]
+    | KInlineEnum os => to_camel (uf_name u) :: sp_inline_enum_values (to_camel (uf_name u)) os
+    | _ => [] end) fs.
 Definition sp_field_scope (fs : list ufield) : list bytes :=
   map (fun u => to_snake (uf_name u)) fs
   ++ map (fun u => 95 :: to_snake (uf_name u)) (filter uf_optional fs)
   ++ map (fun u => map_name (to_snake (uf_name u))) (filter is_map_kind fs).
 Definition fields_wf (fs : list ufield) : bool :=
-  forallb ufield_wf fs && nodup_bytes (sp_field_scope fs).
+  forallb ufield_wf fs && nodup_bytes (sp_field_scope fs ++ sp_inline_names fs).
 
 (* package: dot-separated lower-case identifiers *)
 Definition pkg_char (c : N) : bool := is_low c || is_num c || (c =? 95) || (c =? 46).
@@ -276,6 +302,8 @@ Definition ref_ok (e : entity) (u : ufield) : bool :=
   | KEnum n => names_enum e n
   | KArray i => item_ref_ok e i
   | KMap i => item_ref_ok e i
+  | KInlineObject fs => forallb (fun s => item_ref_ok e (sf_kind s)) fs
+  | KInlineOneof fs => forallb (fun s => item_ref_ok e (sf_kind s)) fs
   | _ => true
   end.
 
@@ -397,6 +425,9 @@ Definition reserved_free (e : entity) : bool :=
   && forallb (fun s => match s with
                        | SOneof _ opts => forallb (fun u => negb (bytes_eqb (to_snake (uf_name u)) (bs "type"))) opts
                        | _ => true end) (e_schemas e)
+  && forallb (fun u => match uf_kind u with
+                        | KInlineOneof opts => forallb (fun o => negb (bytes_eqb (to_snake (sf_name o)) (bs "type"))) opts
+                        | _ => true end) (all_ufields e)
   (* the entity's own property in the Get / List responses next to events / page *)
   && negb (bytes_eqb (response_name e) (bs "page"))
   && negb (match e_query e with Some q => q_events_in_get q | None => false end
